@@ -33,6 +33,7 @@ RULE = ('Exhaustive entry "enum": one evaluation = one chi^2 vector (length 0..5
         'flags) vs a Python list model, plus keep-twice and '
         'loose-then-tight laws. Non-trivial = length >= 2 and some selector keeps a proper non-empty subset, or the vector '
         'contains a tie / inf / NaN; for histories: >= 2 keep() calls of which one removed rows.')
+RULE += (' ' + 'The history machine also writes the result to a fit file (save) and continues with the record read back (reload), several states of the same objects sharing one file.')
 ASSUMPTIONS = [
     "selectors are 2-tuples as on the syntax page; ('A', value) ignores value",
     'thresholds exactly equal to an attained value are excluded (the code uses <=, the page says "below")',
